@@ -426,6 +426,7 @@ MEMBER_NAMES = ['foo', 'food', 'bar', 'meth', 'alias', 'kid', 'getkid', 'zz', '_
 
 RE_FO = re.compile('^fo')
 RE_D = re.compile('d$')
+RE_OO = re.compile('oo|et')      # unanchored: matches inside foo, food, meth(od) names only in the middle
 
 
 def pred_short(name):
@@ -437,7 +438,8 @@ def pred_a(name):
 
 
 LISTS = collections.OrderedDict([
-    ('none', []), ('str', ['foo']), ('regex', [RE_FO]), ('pred', [pred_short]),
+    ('none', []), ('str', ['foo']), ('regex', [RE_OO]), ('pred', [pred_short]),
+    ('regex^', [RE_FO]),
     ('str2', ['foo', 'alias']), ('regex+str', [RE_D, 'meth']), ('pred+regex', [pred_a, RE_FO]), ('alias', ['alias', 'kid']),
 ])
 REMAPS = collections.OrderedDict([
@@ -571,6 +573,16 @@ def judge_policy(res, switches, w, b, r, name, template, access, kwargs, chained
     if obs != exp:
         res.fail(policy_key(settings, access, name, kwargs, exp, obs), case,
                  '%s with %s: observed %r expected %r' % (text, describe(settings, w, b, r), obs, exp))
+    # evaluation may yaqlize the *object* it returns (auto_yaqlize_result), never a host class: a class-level
+    # mark would grant access to every other instance, in every later evaluation of the process
+    for cls in (Kid, Probe, Canary, str, int, list, dict, tuple):
+        if '__yaqlization__' in vars(cls):
+            res.fail('policy: evaluation yaqlized the host class %s (every instance becomes reachable)' % cls.__name__,
+                     case, '%s with %s left %s.__yaqlization__ set' % (text, describe(settings, w, b, r), cls.__name__))
+            try:
+                delattr(cls, '__yaqlization__')
+            except Exception:
+                pass
 
 
 def describe(settings, w, b, r):
